@@ -231,7 +231,7 @@ def writeStruct (U : UnicodeOps) (cfg : Cfg) (rs : RustStruct) (st : Imports) : 
 
 structure GoAlias where
   comments : List Str
-  name : Str          -- declared under `acr(id.renamed)` (since the `fix:` commit b182a80)
+  name : Str          -- declared under `acr(id.renamed)` (since the `fix:` commit 0c924cd)
   ty : Str
 deriving Repr, Inhabited, DecidableEq
 
